@@ -47,8 +47,14 @@ func ShouldPut(
 			return !has, nil // deduplicated by CID
 		}
 		if !blockstoreUseWholeCIDs {
-			_, err := idx.Get(c)
-			if err == nil {
+			// Compare whole multihashes (code and digest), as Has does; comparing
+			// digests only would wrongly skip a CID that merely shares its digest
+			// bytes with a stored block under a different hash function.
+			has, err := idx.HasMultihash(c.Hash())
+			if err != nil {
+				return false, err
+			}
+			if has {
 				return false, nil // deduplicated by hash
 			}
 		}
